@@ -5,27 +5,32 @@ import (
 	verif "github.com/uber/kraken/zzverif"
 )
 
-var verifKeywords = []string{"docker", "registry", "v2", "repositories", "blobs", "sha256", "tags", "current", "link", "data"}
+var verifKeywords = []string{"repositories", "docker", "registry", "v2", "blobs", "sha256", "tags", "current", "link", "data"}
 
-// verifRoot: "/" or 1..maxComp components, optional trailing slash.
+func verifThorough() bool { return verif.Bound("full_root_grammar", 0, 1) == 1 }
+
+// verifRoot: "/", or 1..maxComp components of [a-z0-9._-] bytes (the regexp
+// metacharacter '.' included) with or without a trailing slash.
+//
 func verifRoot(maxComp int) string {
-	switch verif.Choice("root_shape", 3) {
-	case 0:
+	shape := verif.Choice("root_shape", 3)
+	if shape == 0 {
 		return "/"
-	case 1:
-		return verifRootNoSlash(maxComp)
 	}
-	return verifRootNoSlash(maxComp) + "/"
+	root := verifRootNoSlash(maxComp)
+	if shape == 2 {
+		root += "/"
+	}
+	return root
 }
 
-// verifRepoComponent: a Docker path component: a layout keyword or 1..2
-// symbolic bytes matching [a-z0-9]+(?:[._-][a-z0-9]+)* (so with <=2 bytes:
+// verifRepoComponent: a Docker path component: a layout keyword or 1..maxLen
+// symbolic bytes matching [a-z0-9]+(?:[._-][a-z0-9]+)* (with <=2 bytes that is
 // alphanumerics only).
-func verifRepoComponent() string {
-	k := verif.Choice("repo_comp_kind", 3)
-	switch k {
-	case 0:
-		return verifKeywords[verif.Choice("repo_keyword", len(verifKeywords))]
+func verifRepoComponent(maxLen int) string {
+	k := verif.Choice("repo_comp_kind", 1+maxLen)
+	if k == 0 {
+		return verifKeywords[verif.Choice("repo_keyword", verif.Bound("repo_keywords", 4, len(verifKeywords)))]
 	}
 	b := verif.Bytes("repo_comp", k)
 	for j := range b {
@@ -34,21 +39,27 @@ func verifRepoComponent() string {
 	return string(b)
 }
 
-func verifRepo(maxComp int) string {
+func verifRepo(maxComp, maxLen int) string {
 	n := verif.Len("repo_comps", 1, maxComp)
 	repo := ""
 	for i := 0; i < n; i++ {
 		if i > 0 {
 			repo += "/"
 		}
-		repo += verifRepoComponent()
+		repo += verifRepoComponent(maxLen)
 	}
 	return repo
 }
 
-// verifTag: [A-Za-z0-9_][A-Za-z0-9_.-]{0,2}
-func verifTag(maxLen int) string {
-	l := verif.Len("tag_len", 1, maxLen)
+var verifTagKeywords = []string{"current", "link", "tags", "_manifests", "_layers", "_uploads"}
+
+// verifTag: [A-Za-z0-9_][A-Za-z0-9_.-]*: one of a few tags that coincide with
+// layout directory names, or minLen..maxLen symbolic bytes.
+func verifTag(minLen, maxLen int) string {
+	if verif.Choice("tag_kind", 2) == 0 {
+		return verifTagKeywords[verif.Choice("tag_keyword", verif.Bound("tag_keywords", 2, len(verifTagKeywords)))]
+	}
+	l := verif.Len("tag_len", minLen, maxLen)
 	b := verif.Bytes("tag", l)
 	for j := range b {
 		c := b[j]
@@ -62,13 +73,22 @@ func verifTag(maxLen int) string {
 	return string(b)
 }
 
-// VerifDockerTagRoundTrip
-func VerifDockerTagRoundTrip() {
-	root := verifRoot(verif.Bound("root_comps", 1, 2))
+var verifConcreteRoots = []string{"/", "/r.", "/r./", "/ab", "/ab/", "/a-/b_", "/a.b/c/"}
+
+// verifNameRoot: the root for the harnesses whose weight is on the name
+// grammar. quick: one of a few concrete roots (the filesystem root, with and
+// without trailing slash, with the metacharacter '.'), so that the pattern
+// handed to regexp is concrete; thorough: the full symbolic root grammar.
+func verifNameRoot() string {
+	if verifThorough() {
+		return verifRoot(2)
+	}
+	return verifConcreteRoots[verif.Choice("root", verif.Bound("concrete_roots", 5, len(verifConcreteRoots)))]
+}
+
+func verifDockerTagCheck(root, repo, tag string) {
 	p, err := New(root, DockerTag)
 	verif.Assert("new-ok", err == nil)
-	repo := verifRepo(verif.Bound("repo_comps", 2, 3))
-	tag := verifTag(verif.Bound("tag_len", 2, 3))
 	name := repo + ":" + tag
 	bp, err := p.BlobPath(name)
 	verif.Assert("blobpath-ok", err == nil)
@@ -77,20 +97,50 @@ func VerifDockerTagRoundTrip() {
 	verif.Assert("round-trip", got == name)
 }
 
-// VerifShardedBlobRoundTrip
-func VerifShardedBlobRoundTrip() {
+// VerifDockerTagRoundTrip: DockerTagPather, repo:tag names from the grammar.
+func VerifDockerTagRoundTrip() {
+	root := verifNameRoot()
+	repo := verifRepo(verif.Bound("repo_comps", 2, 3), verif.Bound("repo_comp_len", 1, 2))
+	tag := verifTag(verif.Bound("tag_min", 2, 1), verif.Bound("tag_max", 2, 3))
+	verifDockerTagCheck(root, repo, tag)
+}
+
+// VerifDockerTagRoots: DockerTagPather, every root of the symbolic root
+// grammar, short names.
+func VerifDockerTagRoots() {
 	root := verifRoot(verif.Bound("root_comps", 1, 2))
-	p, err := New(root, ShardedDockerBlob)
-	verif.Assert("new-ok", err == nil)
-	l := verif.Len("hex_len", 4, verif.Bound("hex_len", 6, 8))
+	b := verif.Bytes("name", 2)
+	verif.Assume(verifAlnum(b[0]))
+	verif.Assume(verifAlnum(b[1]))
+	verifDockerTagCheck(root, string(b[:1]), string(b[1:]))
+}
+
+func verifHexName(minLen, maxLen int) string {
+	l := verif.Len("hex_len", minLen, maxLen)
 	b := verif.Bytes("hex", l)
 	for j := range b {
 		verif.Assume(verif.Or(verif.And(b[j] >= '0', b[j] <= '9'), verif.And(b[j] >= 'a', b[j] <= 'f')))
 	}
-	name := string(b)
+	return string(b)
+}
+
+func verifShardedCheck(root, name string) {
+	p, err := New(root, ShardedDockerBlob)
+	verif.Assert("new-ok", err == nil)
 	bp, err := p.BlobPath(name)
 	verif.Assert("blobpath-ok", err == nil)
 	got, err := p.NameFromBlobPath(bp)
 	verif.Assert("namefrompath-ok", err == nil)
 	verif.Assert("round-trip", got == name)
+}
+
+// VerifShardedBlobRoundTrip: ShardedDockerBlobPather, hex names of 3..8 digits
+// (3 is the shortest name BlobPath accepts).
+func VerifShardedBlobRoundTrip() {
+	verifShardedCheck(verifNameRoot(), verifHexName(3, verif.Bound("hex_len", 6, 8)))
+}
+
+// VerifShardedBlobRoots: every root of the symbolic root grammar.
+func VerifShardedBlobRoots() {
+	verifShardedCheck(verifRoot(verif.Bound("root_comps", 1, 2)), verifHexName(4, 4))
 }
